@@ -42,11 +42,14 @@ Section Denote.
         | KFloat, SFloat f => Some (SFloat (f32 f))
         | KFloat, SInt z => Some (SFloat (f32 (i2f z)))
         | KEnum, SEnum O n => Some (SEnum 0 n)
-        | KEnum, SInt z => if (z =? 0) || (z =? 1) || (z =? 5) then Some (SEnum 0 z) else None
+        | KEnum, SInt z => if (z =? 0) || (z =? 2) || (z =? 5) || (z =? 1) || (z =? 3) || (z =? -2) then Some (SEnum 0 z) else None
         | KEnum, SStr s =>
             if bytes_eqb s [65] then Some (SEnum 0 0)          (* "A" *)
-            else if bytes_eqb s [66] then Some (SEnum 0 1)     (* "B" *)
+            else if bytes_eqb s [66] then Some (SEnum 0 2)     (* "B" *)
             else if bytes_eqb s [67] then Some (SEnum 0 5)     (* "C" *)
+            else if bytes_eqb s [68] then Some (SEnum 0 1)     (* "D" *)
+            else if bytes_eqb s [71] then Some (SEnum 0 3)     (* "G" *)
+            else if bytes_eqb s [78] then Some (SEnum 0 (-2))  (* "N" *)
             else None
         | _, _ => None
         end
